@@ -18,6 +18,14 @@ class ToGFA1:
     else:
       ol1 = self.get("sid2")
       ol2 = self.get("sid1")
+    for ol in [ol1, ol2]:
+      try:
+        gfapy.Field._validate_gfa_field(ol.name, "segment_name_gfa1")
+      except gfapy.Error as err:
+        raise gfapy.RuntimeError(
+          "Conversion of edge line from GFA2 to GFA1 failed\n"+
+          "Segment name not compatible with GFA1\n"+
+          "Edge line: {}\n{}".format(str(self), err))
     a.append(ol1.name)
     a.append(ol1.orient)
     a.append(ol2.name)
